@@ -349,6 +349,32 @@ func genAdrDec(r *Rng, n int, w *bufio.Writer) {
 				x, _ := b32Encode(net.Blech32, data, enc)
 				b = []byte(x)
 			}
+		case k < 62: // version-1 programs of every admitted length, confidential or not, and mixed-case spellings
+			prog := r.Bytes(r.Pick(2, 20, 31, 32, 33, 40))
+			var x string
+			if r.Bool() {
+				x, _ = guardEnc(func() (string, error) {
+					return address.ToBech32(&address.Bech32{Prefix: net.Bech32, Version: 1, Program: prog})
+				})
+			} else {
+				x, _ = guardEnc(func() (string, error) {
+					return address.ToBlech32(&address.Blech32{Prefix: net.Blech32, Version: 1, PublicKey: genKey33(r), Program: prog})
+				})
+			}
+			b = []byte(x)
+			if one := strings.LastIndexByte(x, '1'); one > 0 && r.Chance(30) {
+				up := strings.ToUpper(x)
+				switch r.Intn(3) {
+				case 0:
+					b = []byte(up[:one+1] + x[one+1:]) // upper-case prefix, lower-case data
+				case 1:
+					b = []byte(x[:one+1] + up[one+1:])
+				default:
+					b = []byte(up)
+					p := one + 1 + r.Intn(len(b)-one-1)
+					b[p] = x[p]
+				}
+			}
 		case k < 64: // blech32 with other versions / lengths / constants
 			ver := byte(r.Pick(0, 1, 1, 2, 16))
 			prog := r.Bytes(r.Pick(20, 32, 0, 1, 10, 40, 41))
